@@ -4,4 +4,6 @@ INVARIANT GrowRejected
 INVARIANT IndentRejected
 INVARIANT DropRejected
 INVARIANT EndsExempt
+INVARIANT Unreadable
+INVARIANT NotCompiling
 CHECK_DEADLOCK FALSE
